@@ -1140,6 +1140,39 @@ pub fn run(run: &Run) {
     }
 }
 
+/// A filter from the typed generator after 0-3 type-breaking structural mutations (wrong index kind, field of another
+/// type, `[*]` added / removed / moved, literal of another kind, operand kinds mixed, argument dropped / duplicated ...):
+/// grammatical text that is usually ill-typed.  Used by C05 (every such input must be answered by Ok or a well-formed error).
+pub fn mutated_typed_text(ch: &mut Choices<'_>) -> (Recipe, String, usize) {
+    let cfg = GenCfg { max_depth: 3, ..GenCfg::full() };
+    let mut gen_ = Gen::new(ch, cfg);
+    let mut expr = if gen_.ch.chance(1, 10) { gen_.gen_arr(2) } else { gen_.gen_bool(3) };
+    gen_.finish_scheme();
+    let mut recipe = gen_.r.clone();
+    let nmut = gen_.ch.weighted(&[1, 5, 3, 1]);
+    let mut applied = 0;
+    for _ in 0..nmut {
+        for _attempt in 0..4 {
+            let target = gen_.ch.draw(12);
+            let mut m = Mutator { ch: gen_.ch, r: &mut recipe, target, applied: None, _p: std::marker::PhantomData };
+            m.expr(&mut expr, true);
+            if m.applied.is_some() {
+                applied += 1;
+                break;
+            }
+        }
+    }
+    g::normalize_args(&mut expr);
+    let alias: Vec<u8> = (0..8).map(|_| gen_.ch.draw(2) as u8).collect();
+    let space: Vec<u8> = (0..8).map(|_| gen_.ch.weighted(&[3, 6, 1, 1, 1, 1]) as u8).collect();
+    (recipe, print_expr(&expr, &Style { alias, space }), applied)
+}
+
+/// Every text of the typing matrices (accepted or not) with the matrix scheme.
+pub fn matrix_texts() -> (Recipe, Vec<String>) {
+    (matrix_recipe(), text_cases().iter().map(|t| t.text.clone()).collect())
+}
+
 /// Inputs of the matrices that the documented rules accept (seed corpus for fuzzing).
 pub fn accepted_texts() -> Vec<String> {
     let mut v: Vec<String> = text_cases().iter().filter(|t| t.expect == Some(true)).map(|t| t.text.clone()).collect();
